@@ -1,4 +1,4 @@
-CONSTANTS MaxLen = 4  LawDim = 2  LawFull = FALSE
+CONSTANTS MaxLen = 4  LawDim = 2  LawFull = FALSE  Rich = FALSE
 INIT InitLaws
 NEXT NextLaws
 INVARIANTS LawL2 LawCos LawCosTrans
